@@ -349,6 +349,7 @@ def gen(tier, rng):
                 xs = fill(p, v)
                 ks = [(rng.randrange(0, x) if x > 0 else 0) for x in xs]
                 out.append("subext q %s ; %s %s" % (k, lst(v), lst(ks)))
+                out.append("subfl q %s ; %s %s %s" % (k, lst(v), lst(ks), lst(ks)))
             v = rng.choice(combos)
             xs = fill(p, v)
             out.append("subext q %s ; %s %s" % (k, lst(v), lst([x for x in xs])))       # index == extent: out of range
@@ -402,6 +403,7 @@ def pair_cases(out, k, p, sl, rng):
         for fs, ls in picks:
             ks = [(f if c == "P" else (rng.randrange(0, x) if x > 0 else 0)) for f, x, c in zip(fs, xs, sl)]
             out.append("%s %s %s %s" % (pre, lst(v), lst(ks), lst(ls)))
+            out.append("%s %s %s %s" % (pre.replace("subextp", "subfl", 1), lst(v), lst(ks), lst(ls)))
     # outside the standard's domain: last > extent, first > last, large values
     v = [rng.randrange(0, 5) for _ in range(nd)]
     xs = fill(p, v)
@@ -431,6 +433,10 @@ def span_cases(out, q, rng):
         for ln in lens(x):
             for start in (0, 5):
                 out.append("sp_fb q sp_dyn %d ; %d %d 0 0" % (x, start, ln))
+                if ln == (x if x != D else 0):
+                    # constructors with every count 0..7 (static extent: only count == extent is inside the domain)
+                    for cnt in range(0, maxlen + 2):
+                        out.append("sp_ctor q sp_dyn %d ; %d 0 %d 0" % (x, start, cnt))
                 for a in list(range(0, maxlen + 2)) + [-1] + big[:1]:
                     out.append("sp_first_d q sp_dyn %d ; %d %d %d 0" % (x, start, ln, a))
                     out.append("sp_last_d q sp_dyn %d ; %d %d %d 0" % (x, start, ln, a))
